@@ -455,6 +455,8 @@ class Mesh:
                                       facets,
                                       self.t2f).T[0].T
             ori = 1 * (np.dot(normal, normals) < 0)
+            # an exterior facet has one cell only: the only valid ori
+            ori[self.f2t[1, facets] == -1] = 0
             return OrientedBoundary(facets, ori)
         return facets
 
@@ -479,6 +481,8 @@ class Mesh:
         else:
             ori = (np.nonzero(np.isin(self.f2t[:, facets], elements).T)[1]
                    .astype(np.int32))
+        # an exterior facet has one cell only: the only valid ori
+        ori[self.f2t[1, facets] == -1] = 0
         return OrientedBoundary(facets, ori)
 
     def elements_satisfying(self,
